@@ -96,6 +96,14 @@ PushVarF(s, a) ==
   IF k = 0 THEN Err(s, "ValueError")
   ELSE IF s.pos + k > s.cap THEN Err(s, Wr) ELSE Ok(s, s.pos + k, -1, {<<s.pos, s.pos + k>>})
 
+(* the constructor Buffer(capacity=a): a negative capacity must be rejected; one
+   that cannot be allocated must be rejected (MemoryError) -- whether a large
+   allocation succeeds is left open *)
+NewOutcomes(a) ==
+  IF ~FitsSsize(a) THEN {"OverflowError"}
+  ELSE IF Neg(a) THEN {"ValueError"}
+  ELSE IF IsSmall(a) THEN {"ok"} ELSE {"ok", "MemoryError"}
+
 FixedSize(m) == CASE m \in {"pull_uint8", "push_uint8"}   -> 1
                   [] m \in {"pull_uint16", "push_uint16"} -> 2
                   [] m \in {"pull_uint32", "push_uint32"} -> 4
